@@ -410,6 +410,14 @@ func (s *Store[K, V]) setShardWithoutLock(shard *Shard[K, V], hash uint64, key K
 			result.reschedule = true
 		}
 	}
+	if ok && expire == 0 {
+		// the previous value has already expired but is not reclaimed yet:
+		// the new value is a fresh one and this call gave it no TTL
+		if old := exist.expire.Load(); old != 0 && old <= s.timerwheel.clock.NowNano() {
+			exist.expire.Store(0)
+			result.reschedule = true
+		}
+	}
 
 	if ok {
 		exist.value = value
@@ -571,7 +579,10 @@ func (s *Store[K, V]) removeEntry(entry *Entry[K, V], reason RemoveReason) {
 	if reason == EXPIRED {
 		// entry might updated already
 		// update expire filed are protected by shard mutex
-		if entry.expire.Load() > s.timerwheel.clock.NowNano() {
+		if expire := entry.expire.Load(); expire == 0 {
+			// the deadline was dropped meanwhile: nothing to expire
+			return
+		} else if expire > s.timerwheel.clock.NowNano() {
 			// still alive: the wheel already unlinked it, put it back
 			s.timerwheel.schedule(entry)
 			return
@@ -698,7 +709,12 @@ func (s *Store[K, V]) sinkWrite(item WriteBufItem[K, V]) {
 			}
 		}
 
-		if item.rechedule && entry.expire.Load() <= s.timerwheel.clock.NowNano() {
+		if item.rechedule && entry.expire.Load() == 0 {
+			// the entry no longer has a deadline
+			if entry.meta.wheelPrev != nil {
+				s.timerwheel.deschedule(entry)
+			}
+		} else if item.rechedule && entry.expire.Load() <= s.timerwheel.clock.NowNano() {
 			// already past its new deadline: scheduling would park it
 			// in a slot that is only visited a full rotation later
 			s.removeEntry(entry, EXPIRED)
@@ -708,7 +724,7 @@ func (s *Store[K, V]) sinkWrite(item WriteBufItem[K, V]) {
 		// update entry policy weight
 		entry.policyWeight += item.costChange
 
-		if item.rechedule {
+		if item.rechedule && entry.expire.Load() != 0 {
 			s.timerwheel.schedule(entry)
 		}
 
